@@ -111,7 +111,7 @@ Fixpoint Inv2 (b : Builder) : Prop :=
   match b with
   | BdBool _ _ _ => True
   | BdPrim k _ vals => Forall (fun z => prim_range k z = true) vals
-  | BdUtf8 k _ offs data => OffsX (is_wide k) offs /\ U8Inv offs data
+  | BdUtf8 k _ offs data => OffsX (is_wide k) offs /\ (is_utf8_kind k = true -> U8Inv offs data)
   | BdList k _ offs _ e => OffsX (list_wide k) offs /\ Inv2 e
   | BdStruct _ _ cs => (fix go (cs : list (Meta * Builder)) : Prop := match cs with [] => True | (_, c) :: r => Inv2 c /\ go r end) cs
   end.
@@ -157,7 +157,7 @@ Proof.
   intros b. induction b as [v vals len|k v vals|k v offs data|k v offs m e IHe|len v cs IH] using Builder_ind'; intros Hw Hi; cbn [push_default].
   - exact I.
   - cbn [Inv2] in *. apply Forall_app. split; [exact Hi|constructor; [apply prim_range_0|constructor]].
-  - destruct Hw as [_ Ho]. destruct Hi as [Hx Hu]. split; [apply OffsX_dup; [apply Ho|exact Hx]|apply U8Inv_dup; assumption].
+  - destruct Hw as [_ Ho]. destruct Hi as [Hx Hu]. split; [apply OffsX_dup; [apply Ho|exact Hx]|intros Hk; apply U8Inv_dup; [assumption|apply Hu, Hk]].
   - destruct Hw as (_ & Ho & He). destruct Hi as [Hx Hie]. split; [apply OffsX_dup; [apply Ho|exact Hx]|exact Hie].
   - apply WfB_struct in Hw as [_ Hch]. apply Inv2_struct in Hi. apply Inv2_struct. apply Forall_map.
     unfold ChildrenOk in Hch. rewrite Forall_forall in *. intros mb Hin. cbn [snd]. apply (IH mb Hin); [apply (Hch mb Hin)|apply (Hi mb Hin)].
@@ -169,7 +169,7 @@ Proof.
     apply bind_ok in H as (v' & Hs & H); injection H as <-.
   - exact I.
   - cbn [Inv2] in *. apply Forall_app. split; [exact Hi|constructor; [apply prim_range_0|constructor]].
-  - destruct Hw as [_ Ho]. destruct Hi as [Hx Hu]. split; [apply OffsX_dup; [apply Ho|exact Hx]|apply U8Inv_dup; assumption].
+  - destruct Hw as [_ Ho]. destruct Hi as [Hx Hu]. split; [apply OffsX_dup; [apply Ho|exact Hx]|intros Hk; apply U8Inv_dup; [assumption|apply Hu, Hk]].
   - destruct Hw as (_ & Ho & He). destruct Hi as [Hx Hie]. split; [apply OffsX_dup; [apply Ho|exact Hx]|exact Hie].
   - apply WfB_struct in Hw as [_ Hch]. apply Inv2_struct in Hi. apply Inv2_struct. apply Forall_map.
     unfold ChildrenOk in Hch. rewrite Forall_forall in *. intros mb Hin. cbn [snd]. apply push_default_inv2; [apply (Hch mb Hin)|apply (Hi mb Hin)].
@@ -273,16 +273,18 @@ Proof.
       by (destruct v; try discriminate Hsc; exact Hp).
     apply bind_ok in Hp' as (z & Hz & Hp'). apply bind_ok in Hp' as (v' & _ & Hp'). injection Hp' as <-.
     cbn [Inv2] in *. apply Forall_app. split; [exact Hi|constructor; [apply (prim_value_range _ _ _ Hz)|constructor]].
-  - assert (Hp' : match text_of_scalar v with
+  - destruct (is_utf8_kind k) eqn:Hk.
+    2:{ exfalso. destruct v; try discriminate Hsc; cbn [push] in Hp; rewrite Hk in Hp; discriminate Hp. }
+    assert (Hp' : match text_of_scalar v with
                   | IOk (LBytes s) => do val' <- set_validity val (length offs - 1) true ;;
                                       do offs' <- increment_last (is_wide k) (duplicate_last offs) (length s) ;;
                                       Ok (BdUtf8 k val' offs' (data ++ s))
-                  | _ => Err end = Ok b') by (destruct v; try discriminate Hsc; exact Hp).
+                  | _ => Err end = Ok b') by (destruct v; try discriminate Hsc; cbn [push] in Hp; rewrite Hk in Hp; exact Hp).
     unfold leaf_text_ok in Ht. destruct (text_of_scalar v) as [[| | |s| | | |]| |] eqn:Et; try discriminate Hp'.
     apply bind_ok in Hp' as (v' & _ & Hp'). apply bind_ok in Hp' as (offs' & Hinc & Hp'). injection Hp' as <-.
     destruct Hw as [_ Ho]. destruct Hi as [Hx Hu]. split.
     + apply (increment_last_offsx _ _ _ _ (offs_len2 offs (proj1 Ho)) (OffsX_dup _ _ (proj1 Ho) Hx) Hinc).
-    + rewrite (increment_dup _ _ _ _ _ Ho Hinc). apply U8Inv_snoc; assumption.
+    + intros _. rewrite (increment_dup _ _ _ _ _ Ho Hinc). apply U8Inv_snoc; [assumption|apply Hu, Hk|assumption].
   - destruct v; try discriminate Hsc; discriminate Hp.
   - destruct v; try discriminate Hsc; discriminate Hp.
 Qed.
@@ -297,12 +299,24 @@ Proof.
   exact (list_loop_inv2 pushf _ l HS HP _ _ _ _ (offs_len2 offs (proj1 Ho)) (OffsX_dup _ _ (proj1 Ho) Hx) Hwe Hie Hl).
 Qed.
 
+Lemma binary_inv2 v k val offs data b' : is_utf8_kind k = false -> WfB (BdUtf8 k val offs data) -> Inv2 (BdUtf8 k val offs data) ->
+  (do s <- binary_of_value v ;;
+   do val' <- set_validity val (length offs - 1) true ;;
+   do offs' <- increment_last (is_wide k) (duplicate_last offs) (length s) ;;
+   Ok (BdUtf8 k val' offs' (data ++ s))) = Ok b' -> Inv2 b'.
+Proof.
+  intros Hk [_ Ho] [Hx _] Hp. apply bind_ok in Hp as (s & _ & Hp). apply bind_ok in Hp as (v' & _ & Hp). apply bind_ok in Hp as (offs' & Hinc & Hp). injection Hp as <-.
+  split; [|rewrite Hk; discriminate].
+  apply (increment_last_offsx _ _ _ _ (offs_len2 offs (proj1 Ho)) (OffsX_dup _ _ (proj1 Ho) Hx) Hinc).
+Qed.
+
 Theorem push_inv2 : forall v, text_ok v -> Pres2 push v.
 Proof.
   intros v. induction v as [x|k z|x|x|c|s|s| |x IHx| | |x IHx|l IHl|l IHl|l IHl|kvs IHk|fields IHf|i n|i n x IHx|i n l IHl|i n fields IHf] using Value_ind';
     intros Ht; try (apply pres2_scalar; [reflexivity|exact Ht]).
   - (* bytes *)
     intros b b' Hw Hi Hp. destruct b as [val vals len|k val vals|k val offs data|k val offs m e|len val cs]; cbn [push] in Hp; try discriminate Hp; try (rewrite prim_value_nonscalar in Hp by exact I; discriminate Hp).
+    all: try (match type of Hp with context [is_utf8_kind ?kk] => destruct (is_utf8_kind kk) eqn:Hk; [discriminate Hp|] end; first [exact (binary_inv2 _ _ _ _ _ b' Hk Hw Hi Hp)|cbn [binary_of_value bind] in Hp; discriminate Hp]).
     refine (push_list_inv2 push_scalar k val offs m e _ b' _ _ Hw Hi Hp).
     + apply Forall_map. apply Forall_forall. intros c _ b0 b0' H1 H2 H3. rewrite push_scalar_int in H3.
       refine (pres2_scalar (VInt U8 (Z.of_N c)) eq_refl _ b0 b0' H1 H2 H3). unfold leaf_text_ok. cbn [text_of_scalar]. apply print_Z_utf8.
@@ -317,12 +331,14 @@ Proof.
     assert (HS : Forall (Pres2 push) l) by (rewrite Forall_forall in *; intros x Hin; apply (IHl x Hin), (Ht x Hin)).
     assert (HP : Forall (PushOk push) l) by (apply Forall_forall; intros x _; apply push_wf).
     intros b b' Hw Hi Hp. destruct b as [val vals len|k val vals|k val offs data|k val offs m e|len val cs]; cbn [push] in Hp; try discriminate Hp; try (rewrite prim_value_nonscalar in Hp by exact I; discriminate Hp).
+    all: try (match type of Hp with context [is_utf8_kind ?kk] => destruct (is_utf8_kind kk) eqn:Hk; [discriminate Hp|] end; first [exact (binary_inv2 _ _ _ _ _ b' Hk Hw Hi Hp)|cbn [binary_of_value bind] in Hp; discriminate Hp]).
     exact (push_list_inv2 push k val offs m e l b' HS HP Hw Hi Hp).
   - (* tuple *)
     cbn [text_ok] in Ht. apply text_ok_seq in Ht.
     assert (HS : Forall (Pres2 push) l) by (rewrite Forall_forall in *; intros x Hin; apply (IHl x Hin), (Ht x Hin)).
     assert (HP : Forall (PushOk push) l) by (apply Forall_forall; intros x _; apply push_wf).
     intros b b' Hw Hi Hp. destruct b as [val vals len|k val vals|k val offs data|k val offs m e|len val cs]; cbn [push] in Hp; try discriminate Hp; try (rewrite prim_value_nonscalar in Hp by exact I; discriminate Hp).
+    all: try (match type of Hp with context [is_utf8_kind ?kk] => destruct (is_utf8_kind kk) eqn:Hk; [discriminate Hp|] end; first [exact (binary_inv2 _ _ _ _ _ b' Hk Hw Hi Hp)|cbn [binary_of_value bind] in Hp; discriminate Hp]).
     + exact (push_list_inv2 push k val offs m e l b' HS HP Hw Hi Hp).
     + apply bind_ok in Hp as (val' & _ & Hp). apply bind_ok in Hp as (st & Hloop & Hp). apply bind_ok in Hp as (cs' & Hfin & Hp). injection Hp as <-.
       apply inv2_of_goodch. eapply finish_record_good; [|exact Hfin]. eapply tuple_loop_good; [exact HS|exact HP| |exact Hloop]. cbn [fst]. eapply goodch_of; eassumption.
@@ -331,6 +347,7 @@ Proof.
     assert (HS : Forall (Pres2 push) l) by (rewrite Forall_forall in *; intros x Hin; apply (IHl x Hin), (Ht x Hin)).
     assert (HP : Forall (PushOk push) l) by (apply Forall_forall; intros x _; apply push_wf).
     intros b b' Hw Hi Hp. destruct b as [val vals len|k val vals|k val offs data|k val offs m e|len val cs]; cbn [push] in Hp; try discriminate Hp; try (rewrite prim_value_nonscalar in Hp by exact I; discriminate Hp).
+    all: try (match type of Hp with context [is_utf8_kind ?kk] => destruct (is_utf8_kind kk) eqn:Hk; [discriminate Hp|] end; first [exact (binary_inv2 _ _ _ _ _ b' Hk Hw Hi Hp)|cbn [binary_of_value bind] in Hp; discriminate Hp]).
     + exact (push_list_inv2 push k val offs m e l b' HS HP Hw Hi Hp).
     + apply bind_ok in Hp as (val' & _ & Hp). apply bind_ok in Hp as (st & Hloop & Hp). apply bind_ok in Hp as (cs' & Hfin & Hp). injection Hp as <-.
       apply inv2_of_goodch. eapply finish_record_good; [|exact Hfin]. eapply tuple_loop_good; [exact HS|exact HP| |exact Hloop]. cbn [fst]. eapply goodch_of; eassumption.
@@ -339,6 +356,7 @@ Proof.
     assert (HS : Forall (fun kv : Value * Value => Pres2 push (snd kv)) kvs) by (rewrite Forall_forall in *; intros x Hin; apply (IHk x Hin), (Ht x Hin)).
     assert (HP : Forall (fun kv : Value * Value => PushOk push (snd kv)) kvs) by (apply Forall_forall; intros x _; apply push_wf).
     intros b b' Hw Hi Hp. destruct b as [val vals len|k val vals|k val offs data|k val offs m e|len val cs]; cbn [push] in Hp; try discriminate Hp; try (rewrite prim_value_nonscalar in Hp by exact I; discriminate Hp).
+    all: try (match type of Hp with context [is_utf8_kind ?kk] => destruct (is_utf8_kind kk) eqn:Hk; [discriminate Hp|] end; first [exact (binary_inv2 _ _ _ _ _ b' Hk Hw Hi Hp)|cbn [binary_of_value bind] in Hp; discriminate Hp]).
     apply bind_ok in Hp as (val' & _ & Hp). apply bind_ok in Hp as (st & Hloop & Hp). apply bind_ok in Hp as (cs' & Hfin & Hp). injection Hp as <-.
     apply inv2_of_goodch. eapply finish_record_good; [|exact Hfin]. eapply map_loop_good; [exact HS|exact HP| |exact Hloop]. cbn [fst]. eapply goodch_of; eassumption.
   - (* struct *)
@@ -346,6 +364,7 @@ Proof.
     assert (HS : Forall (fun nv : bytes * Value => Pres2 push (snd nv)) fields) by (rewrite Forall_forall in *; intros x Hin; apply (IHf x Hin), (Ht x Hin)).
     assert (HP : Forall (fun nv : bytes * Value => PushOk push (snd nv)) fields) by (apply Forall_forall; intros x _; apply push_wf).
     intros b b' Hw Hi Hp. destruct b as [val vals len|k val vals|k val offs data|k val offs m e|len val cs]; cbn [push] in Hp; try discriminate Hp; try (rewrite prim_value_nonscalar in Hp by exact I; discriminate Hp).
+    all: try (match type of Hp with context [is_utf8_kind ?kk] => destruct (is_utf8_kind kk) eqn:Hk; [discriminate Hp|] end; first [exact (binary_inv2 _ _ _ _ _ b' Hk Hw Hi Hp)|cbn [binary_of_value bind] in Hp; discriminate Hp]).
     apply bind_ok in Hp as (val' & _ & Hp). apply bind_ok in Hp as (st & Hloop & Hp). apply bind_ok in Hp as (cs' & Hfin & Hp). injection Hp as <-.
     apply inv2_of_goodch. eapply finish_record_good; [|exact Hfin]. eapply struct_loop_good; [exact HS|exact HP| |exact Hloop]. cbn [fst]. eapply goodch_of; eassumption.
 Qed.
@@ -392,10 +411,11 @@ Proof.
     pose proof (validity_ok_of strict (mkField nm (DPrim k) nl) v _ Hw Hv) as Ev. cbn [fnullable'] in Ev. rewrite Ev.
     assert (E : primkind_eqb k k = true) by (apply primkind_eqb_refl). rewrite E. cbn [andb].
     cbn [Inv2] in Hi. apply forallb_forall. rewrite Forall_forall in Hi. intros z Hz. apply (Hi z Hz).
-  - destruct Hs as (Hd & Hu & Hv). cbn [fdt'] in Hd. subst dt. destruct Hw as [Hwv Ho]. destruct Hi as [Hx Hu8]. cbn [into_array wf_arr fdt' fnullable'].
-    pose proof (validity_ok_of strict (mkField nm (DBytes k) nl) v _ Hwv Hv) as Ev. cbn [fnullable'] in Ev. rewrite Ev, (offsets_ok_of strict _ _ _ Hx Ho), Hu.
-    assert (E : byteskind_eqb k k = true) by (destruct k; reflexivity). rewrite E. cbn [andb negb orb].
-    apply visible_utf8; assumption.
+  - destruct Hs as (Hd & Hv). cbn [fdt'] in Hd. subst dt. destruct Hw as [Hwv Ho]. destruct Hi as [Hx Hu8]. cbn [into_array wf_arr fdt' fnullable'].
+    pose proof (validity_ok_of strict (mkField nm (DBytes k) nl) v _ Hwv Hv) as Ev. cbn [fnullable'] in Ev. rewrite Ev, (offsets_ok_of strict _ _ _ Hx Ho).
+    assert (E : byteskind_eqb k k = true) by (destruct k; reflexivity). rewrite E. cbn [andb].
+    destruct (is_utf8_kind k) eqn:Hu; cbn [negb orb]; [|reflexivity].
+    apply visible_utf8; [assumption|apply Hu8; reflexivity].
   - destruct Hs as (cf & Hd & Hm & Hv & Hse). cbn [fdt'] in Hd. subst dt m. destruct Hw as (Hwv & Ho & Hwe). destruct Hi as [Hx Hie].
     cbn [into_array wf_arr fdt' fnullable']. rewrite arr_len_into_array.
     pose proof (validity_ok_of strict (mkField nm (DList k cf) nl) v _ Hwv Hv) as Ev. cbn [fnullable'] in Ev. rewrite Ev, meta_matches_of, (IHe cf Hse Hwe Hie).
